@@ -169,7 +169,15 @@ where
     if n > 0 {
         count_seal(run, cls);
     }
-    let enc_twin = enc.clone();
+    // a copy of the finished encoder, taken with clone() or with clone_from() onto a fresh one
+    let enc_twin = if rng.bool() {
+        let mut t: Enc<M, S> = RangeEncoder::new();
+        t.clone_from(&enc);
+        run.count("encoder_copies_via_clone_from", 1);
+        t
+    } else {
+        enc.clone()
+    };
     let words: Vec<M::W> = enc.into_compressed().unwrap_infallible();
     let wu = words_u128(&words);
     run.count("symbols", n as u64);
@@ -234,6 +242,40 @@ where
             let mut e2 = enc_twin.clone();
             let mut d = e2.decoder();
             decode_check(run, &mut d, &msg, 0, "RangeEncoder::decoder()", "C02") && check_exhausted(run, d.maybe_exhausted(), &msg, &wu)
+        }
+        4 => {
+            // a decoder suspended into its raw parts and resumed from them at arbitrary symbol
+            // boundaries (also while its interval wraps around the top of State)
+            let mut d = RangeDecoder::<M::W, S, _>::from_compressed(words.clone()).unwrap_infallible();
+            let mut ok = true;
+            let mut resumes = 0u64;
+            for (i, &(mi, sym)) in msg.syms.iter().enumerate() {
+                if rng.chance(1, 3) {
+                    let (bulk, st, point) = d.into_raw_parts();
+                    let wrapped = point.as_u() < st.lower().as_u();
+                    d = match RangeDecoder::from_raw_parts(bulk, st, point) {
+                        Ok(d) => d,
+                        Err(_) => {
+                            run.violation("resume", "C02/resume-refused", format!("before symbol #{i}: from_raw_parts refuses the parts that into_raw_parts just returned (point below lower: {wrapped}); message {} words {:?}", describe_msg(&msg), wu));
+                            return;
+                        }
+                    };
+                    resumes += 1;
+                    if wrapped {
+                        run.count("decoder_resumes_while_wrapped", 1);
+                    }
+                }
+                match msg.zoo[mi].range_decode(&mut d) {
+                    Ok(g) if g == sym => {}
+                    other => {
+                        run.violation("wrong-symbol", "C02/decode-mismatch", format!("suspended/resumed decoder: symbol #{i}: got {other:?}, want {sym}; message {} words {:?}", describe_msg(&msg), wu));
+                        ok = false;
+                        break;
+                    }
+                }
+            }
+            run.count("decoder_resumes", resumes);
+            ok && check_exhausted(run, d.maybe_exhausted(), &msg, &wu)
         }
         5 => {
             // for_compressed over a borrowed Vec + the trait form of maybe_exhausted
